@@ -28,3 +28,84 @@ func zzC05_E1_canonical(n int) {
 	assertEqBytes(out, b, "accepted E1 encoding re-encodes to exactly the input")
 	verifReach("E1 accepted")
 }
+
+// zzC05_E2_canonical: every string that E2_read_bytes accepts re-encodes to itself.
+func zzC05_E2_canonical(n int) {
+	b := nondetBytes(n)
+	var p pointE2
+	err := readPointE2(&p, b)
+	if err != nil {
+		verifAssert(IsInvalidInputsError(err), "rejection is an invalid-input error")
+		verifReach("E2 rejected")
+		return
+	}
+	verifAssert(n == g2BytesLen, "only 96-byte strings are accepted")
+	out := make([]byte, g2BytesLen)
+	writePointE2(out, &p)
+	assertEqBytes(out, b, "accepted E2 encoding re-encodes to exactly the input")
+	verifReach("E2 accepted")
+}
+
+// zzC05_BLS_pubkey: DecodePublicKey(BLS) either rejects with an invalid-input error or accepts and
+// Encode() gives back exactly the input; the identity flag is set iff the encoding is the infinity one.
+func zzC05_BLS_pubkey(n int, compressedAPI bool) {
+	b := nondetBytes(n)
+	b0 := append([]byte{}, b...)
+	var pk PublicKey
+	var err error
+	if compressedAPI {
+		pk, err = DecodePublicKeyCompressed(BLSBLS12381, b)
+	} else {
+		pk, err = DecodePublicKey(BLSBLS12381, b)
+	}
+	assertEqBytes(b, b0, "input slice unmodified")
+	if err != nil {
+		verifAssert(IsInvalidInputsError(err), "rejection is an invalid-input error")
+		verifAssert(pk == nil, "no key on error")
+		verifReach("pubkey rejected")
+		return
+	}
+	verifAssert(n == PubKeyLenBLSBLS12381, "only 96-byte strings are accepted")
+	assertEqBytes(pk.Encode(), b0, "accepted BLS public key re-encodes to exactly the input")
+	assertEqBytes(pk.EncodeCompressed(), b0, "EncodeCompressed agrees")
+	k := pk.(*pubKeyBLSBLS12381)
+	verifAssert(k.isIdentity == (b0[0]&0x40 != 0), "identity flag iff infinity encoding")
+	verifReach("pubkey accepted")
+}
+
+// zzC05_BLS_privkey: DecodePrivateKey(BLS) accepts exactly the 32-byte big-endian scalars in [1, r-1]
+// and Encode() gives back exactly the input.
+func zzC05_BLS_privkey(n int) {
+	b := nondetBytes(n)
+	b0 := append([]byte{}, b...)
+	sk, err := DecodePrivateKey(BLSBLS12381, b)
+	inRange := false
+	if n == 32 {
+		inRange = refScalarInRange(b0)
+	}
+	if err != nil {
+		verifAssert(IsInvalidInputsError(err), "rejection is an invalid-input error")
+		verifAssert(!inRange, "scalars in [1, r-1] are accepted")
+		verifReach("privkey rejected")
+		return
+	}
+	verifAssert(inRange, "only 32-byte scalars in [1, r-1] are accepted")
+	assertEqBytes(sk.Encode(), b0, "accepted BLS private key re-encodes to exactly the input")
+	verifReach("privkey accepted")
+}
+
+var blsOrderBE = [32]byte{0x73, 0xed, 0xa7, 0x53, 0x29, 0x9d, 0x7d, 0x48, 0x33, 0x39, 0xd8, 0x08, 0x09, 0xa1, 0xd8, 0x05,
+	0x53, 0xbd, 0xa4, 0x02, 0xff, 0xfe, 0x5b, 0xfe, 0xff, 0xff, 0xff, 0xff, 0x00, 0x00, 0x00, 0x01}
+
+// refScalarInRange: 0 < OS2IP(b) < r, by schoolbook comparison (no short-circuit: eager booleans)
+func refScalarInRange(b []byte) bool {
+	lt := false // b < r
+	eq := true
+	nz := false
+	for i := 0; i < 32; i++ {
+		lt = bOr(lt, bAnd(eq, b[i] < blsOrderBE[i]))
+		eq = bAnd(eq, b[i] == blsOrderBE[i])
+		nz = bOr(nz, b[i] != 0)
+	}
+	return bAnd(lt, nz)
+}
